@@ -31,6 +31,11 @@ re-assembly.  Unit kinds:
           function results, ?:, comma and chained assignments), sizes around the byte-loop/memcpy and
           index-scale thresholds (1..9, 12..17, 31..33, 63..65, 127..129, 255..257, 300, 1000); the
           arrays are refilled before and hashed after every statement.
+  bfp     bit-field promotion: fields of width 1, 2, 7, 8, 15, 16, 31, 32, 33, base-1, base for every declared type,
+          values at and above the sign boundary, used directly in / % >> comparisons, conversions to wider
+          integers and double, arguments; for int / unsigned fields also the promoted type itself.
+  sret    struct results (hidden address, two registers, one register) with several of them alive in one full
+          expression: arguments of another call, ?:, comma, `.member` of a result, nested.
   pun     an object of every scalar type (integers, float, double, pointer) written through its own type,
           modified through a char / signed char / unsigned char lvalue (also memcpy and union members) and
           read back - and the reverse orders - as pointer parameters that may or may not alias, parameters
@@ -62,6 +67,7 @@ left shifts of negative values, uninitialised reads, aliasing through incompatib
 _Complex, _Atomic, _Thread_local, unbounded loops, inexact floating arithmetic, out-of-range
 floating-to-integer conversions, and conversions of values other than 0/1 to `_Bool` (known finding
 C07:bool-conversion, pinned by a corpus program instead)."""
+import re
 
 # signatures of known findings that still reproduce on the tree under test (filled by the check from the corpus
 # replays): the generator stays clear of exactly those constructs, and covers them again as soon as they are repaired
@@ -1503,6 +1509,104 @@ class Gen:
         return {"name": name, "kind": "sw", "text": text, "expect": {}, "lean": [], "info": t}
 
 
+    # ------------------------------------------------------------------ bit-field promotion at the boundary widths
+    def unit_bfp(self, index):
+        """bit-fields of width 1, 7, 8, 15, 16, 31, 32 (and 33, base width - 1, base width for wider bases) holding
+        values at and above their sign boundary, used DIRECTLY as operands: / % >> < > == conversions to wider
+        integer types and to double, unary and binary operators, ?:, arguments.  For the standard bit-field types
+        (int, unsigned) everything incl. the promoted type (_Generic, sizeof) is compared; for wider declared types
+        only operations whose value does not depend on the width the arithmetic is carried out in (gcc keeps the
+        odd width, and promotes widths <= 32 by value range: known finding C07:wide-bitfield-promotion)."""
+        r = self.r
+        name = self.uname()
+        bases = ["int", "uint", "int", "uint", "long", "ulong", "llong", "ullong", "short", "ushort", "uchar", "schar"]
+        bt = bases[index % len(bases)]
+        S = width(bt)
+        std = bt in ("int", "uint")
+        lim = 32 if "C07:wide-bitfield-promotion" in AVOID else 33      # widths below lim promote like int bit-fields
+        ws = sorted({w for w in (1, 2, 7, 8, 15, 16, 31, 32, 33, S - 1, S) if 1 <= w <= S})
+        glob = ["struct %s_s { %s };" % (name, " ".join("%s f%d:%d;" % (cspell(bt), w, w) for w in ws)),
+                "static ll %s_w (ll x) { return x; } static double %s_d (double x) { return x; }" % (name, name)]
+        body = ["  struct %s_s s; volatile int one = 1, three = 3; memset (&s, 0, sizeof (s));" % name]
+        k = 0
+        for w in ws:
+            if signed(bt):
+                vals = [-(1 << (w - 1)), -1, (1 << (w - 1)) - 1, 0 if w == 1 else 1]
+            else:
+                vals = [(1 << w) - 1, 1 << (w - 1), (1 << (w - 1)) - 1, (1 << (w - 1)) + 1 if w > 1 else 0]
+            f = "s.f%d" % w
+            for v in vals[:2] + [r.choice(vals[2:])]:
+                body.append("  { volatile %s src_ = %s; %s = src_; }" % (cspell(bt), clit(bt, conv(bt, v)), f))
+                tag = "%s.%d.%d" % (name, w, k); k += 1
+                ops = ["%s / 3" % f, "%s %% 7" % f, "%s >> 1" % f, "%s / three" % f, "%s < 1" % f, "%s > 0" % f, "%s < one" % f,
+                       "%s == %s" % (f, clit(bt, conv(bt, v))), "%s >= %s" % (f, clit("int", 2)), "%s ? 3 : 4" % f, "!%s" % f, "%s && one" % f]
+                conv_ops = ['PS ("%s.ll", (ll) %s); PU ("%s.ull", (ull) %s); PF ("%s.db", (double) %s); PF ("%s.fl", (float) %s);' % (tag, f, tag, f, tag, f, tag, f),
+                            '{ ll w_ = %s; double d_ = %s; unsigned long u_ = %s; PS ("%s.wl", w_); PF ("%s.wd", d_); PU ("%s.wu", u_); }' % (f, f, f, tag, tag, tag),
+                            'PS ("%s.aw", %s_w (%s)); PF ("%s.ad", %s_d (%s)); printf ("%s.va %%lld\\n", (ll) (%s / 1));' % (tag, name, f, tag, name, f, tag, f)]
+                if std or w < lim:
+                    # arithmetic whose result depends on the promoted type
+                    ops += ["%s > -1" % f, "%s < -1" % f, "%s / -1" % f if not (signed(bt) and v == -(1 << (w - 1)) and w == 32) else "%s / 1" % f,
+                            "%s >> 31" % f, "~%s" % f, "%s + 0u" % f, "%s * 2u" % f, "%s - 1u" % f, "(%s, %s)" % (f, f), "one ? %s : 0" % f, "one ? %s : 0u" % f]
+                    if not signed(bt) or v != -(1 << (w - 1)) or w < 32:
+                        ops.append("-%s" % f)
+                for j, o in enumerate(ops):
+                    body.append('  PS ("%s.o%d", (ll) (%s));' % (tag, j, o))
+                    if (std or w < lim) and not o.startswith("(") and (j % 4 == 0 or o.startswith(("~", "-", "one ?")) or o.endswith("u")):
+                        body.append('  PS ("%s.t%d", TYPEID (%s) * 100 + (int) sizeof (%s));' % (tag, j, o, o))
+                for c in conv_ops:
+                    if w == 64 and not signed(bt) and "C07:bitfield-u64-to-double" in AVOID:
+                        c = re.sub(r'PF \("[^"]*", [^;]*\);|double d_ = [^;]*;|PF \("[^"]*\.wd", d_\);', "", c)
+                    body.append("  " + c)
+        text = "\n".join(glob) + "\nstatic void %s (void) {\n%s\n}\n" % (name, "\n".join(body))
+        return {"name": name, "kind": "bfp", "text": text, "expect": {}, "lean": [], "info": bt}
+
+    # ------------------------------------------------------------------ several struct results alive in one expression
+    def unit_sret(self):
+        """functions returning structs by value - through a hidden address (> 16 bytes), in two registers, in one -
+        with several results alive in ONE full expression: as arguments of another call, operands of ?: and comma,
+        `.member` of a result, nested, mixed with scalar and double arguments"""
+        r = self.r
+        name = self.uname()
+        glob, body = [], []
+        kinds = []
+        for i, (nm, mem) in enumerate((("b", r.choice(["long x, y, z;", "long x; int y; long z; char q; long t;", "double x; long y, z;", "int v[7]; long y, z;", "long x, y, z, t, u, w, q;"])),
+                                       ("m", r.choice(["long x, y;", "int x; long y; int z;", "double x; long y;"])),
+                                       ("s", r.choice(["int x, y;", "char x; short y; char z;", "int y; float x;"])))):
+            S = "struct %s_%s" % (name, nm)
+            has_z = " z" in mem or ", z" in mem
+            glob.append("%s { %s };" % (S, mem))
+            first = "v[0]" if "v[7]" in mem else "x"
+            glob.append("static %s %s_mk%s (long a, long b) { %s r_; memset (&r_, 0, sizeof (r_)); r_.%s = a; r_.y = b + %d; return r_; }" % (S, name, nm, S, first, i))
+            glob.append("static long %s_dot%s (%s p, %s q) { return (long) p.%s * 3 + (long) q.%s * 5 + (long) p.y * 7 + (long) q.y * 11; }" % (name, nm, S, S, first, first))
+            glob.append("static %s %s_add%s (%s p, %s q) { %s r_ = p; r_.%s = p.%s + q.%s; r_.y = p.y - q.y; return r_; }" % (S, name, nm, S, S, S, first, first, first))
+            kinds.append((nm, S, first))
+        glob.append("static long %s_mix (struct %s_b p, struct %s_s q, double d, struct %s_m u, struct %s_b v, int n) { return (long) p.y * 2 + (long) q.y * 3 + (long) (d * 2) + (long) u.y * 5 + (long) v.y * 7 + n; }"
+                    % (name, name, name, name, name))
+        body.append("  volatile long a = %d, b = %d, c = %d; volatile int t = 1, z = 0;" % (r.below(100) - 50, r.below(100), r.below(1000)))
+
+        def mk(nm, depth):
+            c = r.below(6) if depth > 0 else 0
+            A = lambda: r.choice(["a", "b", "c", str(r.below(50)), "a + %d" % r.below(9)])
+            if c <= 1: return "%s_mk%s (%s, %s)" % (name, nm, A(), A())
+            if c == 2: return "%s_add%s (%s, %s)" % (name, nm, mk(nm, depth - 1), mk(nm, depth - 1))
+            if c == 3: return "(%s ? %s : %s)" % (r.choice(["t", "z", "a > b"]), mk(nm, depth - 1), mk(nm, depth - 1))
+            if c == 4: return "(%s, %s)" % (mk(r.choice("bms"), depth - 1), mk(nm, depth - 1))
+            return "%s_add%s (%s, %s_mk%s (%s_dot%s (%s, %s), 1))" % (name, nm, mk(nm, depth - 1), name, nm, name, nm, mk(nm, 0), mk(nm, 0))
+
+        n = 0
+        for nm, S, first in kinds:
+            for _ in range(4 if nm == "b" else 2):
+                body.append('  PS ("%s.%s.%d", %s_dot%s (%s, %s));' % (name, nm, n, name, nm, mk(nm, 2), mk(nm, 2))); n += 1
+                body.append('  PS ("%s.%s.%d", %s.y + %s.%s);' % (name, nm, n, mk(nm, 2), mk(nm, 1), first)); n += 1
+            body.append("  { %s l_ = %s; %s m_[2]; m_[0] = %s; m_[1] = %s_add%s (l_, m_[0]); PS (\"%s.%s.%d\", %s_dot%s (m_[1], l_)); }"
+                        % (S, mk(nm, 2), S, mk(nm, 1), name, nm, name, nm, n, name, nm)); n += 1
+        for _ in range(4):
+            body.append('  PS ("%s.x.%d", %s_mix (%s, %s, %d.5, %s, %s, (int) %s_dotb (%s, %s)));' % (
+                name, n, name, mk("b", 2), mk("s", 1), r.below(20), mk("m", 1), mk("b", 1), name, mk("b", 1), mk("b", 0))); n += 1
+        text = "\n".join(glob) + "\nstatic void %s (void) {\n%s\n}\n" % (name, "\n".join(body))
+        return {"name": name, "kind": "sret", "text": text, "expect": {}, "lean": [], "info": ""}
+
+
 def assemble(units):
     src = [PRELUDE]
     for u in units:
@@ -1517,8 +1621,8 @@ def assemble(units):
 def gen_program(rng, index, pair_cursor):
     """one program: a mix of units; `pair_cursor` walks through the 144 type pairs"""
     g = Gen(rng)
-    kinds = [["conv", "conv", "cexpr", "ctrl", "fcexpr", "pun"], ["bitf", "bitf", "init", "cexpr", "saddr", "ncast"],
-             ["scopy", "calls", "ctrl", "conv", "fcexpr", "sw"], ["conv", "bitf", "calls", "init", "saddr", "ncast"]][index % 4]
+    kinds = [["conv", "conv", "cexpr", "ctrl", "fcexpr", "pun"], ["bitf", "bfp", "init", "cexpr", "saddr", "ncast"],
+             ["scopy", "calls", "ctrl", "conv", "fcexpr", "sw", "sret"], ["conv", "bitf", "calls", "init", "saddr", "ncast"]][index % 4]
     units = []
     for k in kinds:
         if k == "conv":
@@ -1535,5 +1639,7 @@ def gen_program(rng, index, pair_cursor):
         elif k == "saddr": units.append(g.unit_saddr(index // 2))
         elif k == "ncast": units.append(g.unit_ncast(index // 2))
         elif k == "pun": units.append(g.unit_pun(index // 4))
+        elif k == "bfp": units.append(g.unit_bfp(index // 4))
+        elif k == "sret": units.append(g.unit_sret())
         elif k == "sw": units.append(g.unit_sw(index // 4))
     return units
